@@ -187,7 +187,6 @@ Section XmlDomain.
   Fixpoint xml_ok (v : pdata) : bool :=
     match v with
     | VStr s => xml_text s
-    | VFloat f => valid_b64 f
     | VList l => forallb xml_ok l
     | VMap m => (fix go (m : list (str * pdata)) : bool :=
                    match m with [] => true | (k, x) :: r => name_ok k && xml_ok x && go r end) m
